@@ -20,3 +20,8 @@ import GenProps.C14ATN
 #print axioms Blackbird.C14_lexer_certificates
 #print axioms Blackbird.C14_lexer_rule_language
 #print axioms Blackbird.C14_token_rule_language
+#print axioms Blackbird.C14_parser_atn_decodes
+#print axioms Blackbird.C14_parser_subautomata
+#print axioms Blackbird.C14_parser_certificates
+#print axioms Blackbird.C14_parser_rule_language
+#print axioms Blackbird.C14_left_recursive_rules
